@@ -1641,7 +1641,7 @@ func shapeIO(method string, size, k, m int) (in, out []int) {
 
 // RunC18 is the interceptor / stats-handler check.
 func RunC18(r *mon.Run) {
-	r.Rule = "scripted RPCs (unary, client-, server-, bidi-streaming) x (gRPC, gRPC-web binary and text, HTTP transcoding with JSON / protobuf bodies, implicit /pkg.Svc/Method binding, body-less GET and POST) x encoded message sizes {0,2,3,4,5,6,100} (a 1-byte protobuf message does not exist) x handler succeeds / fails x the 8 on/off combinations of (recording unary interceptor, recording stream interceptor, recording stats handler), on a locally registered service and on the same service proxied through RegisterConn to a real grpc.Server (reflection v1alpha); plus deciding interceptors (replace reply, deny, override error), larking's NewUnaryContext/NewStreamContext helpers and a WebSocket lane on a real server. Every handler step, interceptor invocation and stats event of an RPC is appended to one ordered per-RPC log; the client-visible transcript is compared with the transcript of the same (or, for deciding interceptors, the equivalent) script run without options. distinct = (target, protocol, method, size class, fail, option set) cells that were executed and held"
+	r.Rule = "scripted RPCs (unary, client-, server-, bidi-streaming) x (gRPC, gRPC-web binary and text, HTTP transcoding with JSON / protobuf bodies, implicit /pkg.Svc/Method binding, body-less GET and POST) x encoded message sizes {0,2,3,4,5,6,100} (a 1-byte protobuf message does not exist) x handler succeeds / fails x the 8 on/off combinations of (recording unary interceptor, recording stream interceptor, recording stats handler), on a locally registered service and on the same service proxied through RegisterConn to a real grpc.Server (reflection v1alpha); plus deciding interceptors (replace reply, deny, override error), larking's NewUnaryContext/NewStreamContext helpers and a WebSocket lane on a real server; plus a message-kind lane (msgkinds.go): methods whose request is URL-only / a whole message / a `body:` selected google.api.HttpBody field / an HttpBody, and whose reply is a message / Empty / HttpBody / a response_body-selected HttpBody or message field, unary and each streaming shape, over HTTP transcoding (JSON, protobuf), gRPC and gRPC-web, payload sizes 0..70000 (thorough: ..1 MiB and PRNG sizes), handler succeeds / fails, with no options / a stats handler / stats handler + recording interceptors. Every handler step, interceptor invocation and stats event of an RPC is appended to one ordered per-RPC log; the client-visible transcript is compared with the transcript of the same (or, for deciding interceptors, the equivalent) script run without options. distinct = (target, protocol, method, size class, fail, option set) cells that were executed and held"
 	r.Floor = r.Pick(400, 600)
 	r.Assume("the unary method handler glue of the harness calls the interceptor it is handed exactly as protoc-gen-go-grpc code does")
 	r.Assume("for proxied RPCs 'the handler' is observed at the back-end: messages it received / sent and the error it returned (or the larking-side interceptor's return value when one is installed)")
@@ -2039,6 +2039,7 @@ func RunC18(r *mon.Run) {
 	s.checkKept(r)
 	runReplyShapes(r)
 	runPayloadIdentity(r)
+	runMessageKinds(r)
 	runWS(r)
 }
 
@@ -2046,6 +2047,14 @@ func replayRPC(r *mon.Run, raw json.RawMessage) {
 	var doc struct {
 		Case *RPCCase `json:"case"`
 		Lane string   `json:"lane"`
+	}
+	var mk struct {
+		Lane string  `json:"lane"`
+		Case *MKCase `json:"case"`
+	}
+	if err := json.Unmarshal(raw, &mk); err == nil && mk.Lane == "msgkind" && mk.Case != nil {
+		replayMessageKind(r, mk.Case)
+		return
 	}
 	var c RPCCase
 	if err := json.Unmarshal(raw, &doc); err == nil && doc.Case != nil {
